@@ -16,6 +16,7 @@ package accounts
 // the request's graph and the method's operation class.
 
 //@ func getUnaryRequestGraph
+//@   vars req info o o o o o o o o o o
 //@   property C05
 //@   option prelude=auth
 //@   option load=gripql
@@ -37,6 +38,7 @@ package accounts
 //@   ensures res: result.0 == hres0(handler, hctx, hreq) && result.1 == hres1(handler, hctx, hreq)
 
 //@ func unaryAuthInterceptor$1
+//@   vars ctx req info handler auth access md metaData i user err op ok graph err
 //@   property C05
 //@   option prelude=auth
 //@   option load=gripql
@@ -74,6 +76,7 @@ package accounts
 //@   ensures res: result == hsres(handler, hsrv, hstream)
 
 //@ func streamAuthInterceptor$1
+//@   vars srv ss info handler auth access md metaData i user err w err
 //@   property C05
 //@   option prelude=auth
 //@   option load=gripql
@@ -89,6 +92,7 @@ package accounts
 // Per-element filter of streamed bulk writes: an element is handed to the server only
 // if the policy grants the bound user Write on the graph that element names.
 //@ func (*BulkWriteFilter).RecvMsg
+//@   vars bw m ge err mPtr
 //@   property C05 C18
 //@   option prelude=auth
 //@   option load=gripql
@@ -99,6 +103,7 @@ package accounts
 // The casbin-backed policy: the decision is exactly casbin's decision for
 // (user, graph, operation) -- no other state takes part in it.
 //@ func (*CasbinAccess).Enforce
+//@   vars ce user graph operation res err
 //@   property C05
 //@   option prelude=auth
 //@   requires nonnil: ce != nil
@@ -108,6 +113,7 @@ package accounts
 // with that user's configured password (the credentials are the ones parseBasicAuth reads
 // from the first Authorization header).
 //@ func (BasicAuth).Validate
+//@   vars ba md auth ok user password ok c
 //@   property C05
 //@   option prelude=auth
 //@   let hdr = ite(has(md, "Authorization"), md["Authorization"][0], md["authorization"][0])
@@ -117,6 +123,7 @@ package accounts
 //@       (exists i :: 0 <= i && i < len(ba) && ba[i].User == bauser(hdr) && ba[i].Password == bapass(hdr))
 
 //@ func parseBasicAuth
+//@   vars auth c err cs s
 //@   property C05
 //@   option prelude=auth
 //@   pure
